@@ -227,6 +227,22 @@ def _search_type_serde(here, out):
     return None, (p.stdout.strip()[-300:] + p.stderr.strip()[-300:])
 
 
+def _search_let_release(here, out):
+    """programs of the repaired let-scope findings (F17: partial record pattern); F15 / F16 are listed known findings and
+    are replayed by the known-findings loop, not here"""
+    exe, err = _build("ffi_serde", here, out)
+    if exe is None:
+        return None, "replay harness does not build against the current tree: " + err[-400:]
+    for idx in ("2",):
+        try:
+            p = subprocess.run([exe, "let-release", idx], capture_output=True, text=True, timeout=300)
+        except subprocess.TimeoutExpired:
+            return None, "replay timeout"
+        if p.stdout.strip().startswith("FAILS"):
+            return {"cmd": ["ffi_replay", "let-release", idx], "value": p.stdout.strip()[6:400], "clause": "bind_record::ensures[every counted field of a destructured record gets its own references]"}, ""
+    return None, "let-release: HOLDS"
+
+
 def _search_exchange(here, out):
     """VM against WASM on programs that need many state exchange buffers next to static temporaries"""
     exe, err = _build("ffi_serde", here, out)
@@ -242,7 +258,7 @@ def _search_exchange(here, out):
     return None, p.stdout.strip()[-200:]
 
 
-SEARCHERS = {"exchange": _search_exchange, "type_serde": _search_type_serde, "state_tree": lambda here, out: _search_state_tree(here, out, 4), "ffi_serde": _search_ffi, "parser": _search_parser, "privacy": _search_privacy, "sched": _search_sched, "boxed": _search_boxed, "cst": _search_cst, "layout": _search_layout, "schedvm": _search_schedvm}
+SEARCHERS = {"let_release": _search_let_release, "exchange": _search_exchange, "type_serde": _search_type_serde, "state_tree": lambda here, out: _search_state_tree(here, out, 4), "ffi_serde": _search_ffi, "parser": _search_parser, "privacy": _search_privacy, "sched": _search_sched, "boxed": _search_boxed, "cst": _search_cst, "layout": _search_layout, "schedvm": _search_schedvm}
 TOOLS = {"st_replay": "state_tree", "ffi_replay": "ffi_serde", "parser_replay": "parser"}
 
 
